@@ -105,6 +105,7 @@ pub fn c20_tables<S: Src>(s: &mut S) {
     let n = s.u8();
     s.assume(n <= 4);
     let mut certs = Certificates::new();
+    let mut cb = CertificatesBuilder::new();
     let (mut dep, mut refund) = (0u128, 0u128);
     for j in 0..n {
         let sh = s.u8();
@@ -112,24 +113,29 @@ pub fn c20_tables<S: Src>(s: &mut S) {
         let coin = s.u64();
         let (c, d, r) = c20_cert(sh, coin, key, pool, 10 + j);
         certs.add(&c);
+        cb.add(&c).unwrap();
         dep += d; refund += r;
     }
     let nwd = s.u8();
     s.assume(nwd <= 3);
     let mut wds = Withdrawals::new();
+    let mut wb = WithdrawalsBuilder::new();
     let mut wd_sum = 0u128;
     for j in 0..nwd {
         let w = s.u64();
         wds.insert(&RewardAddress::new(0, &ccred(100 + j)), &BigNum::from(w));
+        wb.add(&RewardAddress::new(0, &ccred(100 + j)), &BigNum::from(w)).unwrap();
         wd_sum += w as u128;
     }
     let nprop = s.u8();
     s.assume(nprop <= 2);
     let mut props = VotingProposals::new();
+    let mut pb = VotingProposalBuilder::new();
     let mut prop_sum = 0u128;
     for j in 0..nprop {
         let d = s.u64();
         props.add(&proposal(d, 50 + j));
+        pb.add(&proposal(d, 50 + j)).unwrap();
         prop_sum += d as u128;
     }
     let mut body = TransactionBody::new_tx_body(&TransactionInputs::new(), &TransactionOutputs::new(), &BigNum::from(0u64));
@@ -146,5 +152,103 @@ pub fn c20_tables<S: Src>(s: &mut S) {
     match get_implicit_input(&body, &p, &k) {
         Ok(v) => assert!(u64::from(v.coin()) as u128 == refund + wd_sum && v.multiasset().is_none(), "get_implicit_input differs from withdrawals + in-transaction refunds"),
         Err(_) => assert!(refund + wd_sum > max, "get_implicit_input errs although the sum fits"),
+    }
+    // the builder's own figures
+    let cfg = TransactionBuilderConfigBuilder::new()
+        .fee_algo(&LinearFee::new(&BigNum::from(0u64), &BigNum::from(0u64)))
+        .pool_deposit(&p).key_deposit(&k).max_value_size(5000).max_tx_size(16384)
+        .coins_per_utxo_byte(&BigNum::from(0u64)).build().unwrap();
+    let mut tb = TransactionBuilder::new(&cfg);
+    tb.set_certs_builder(&cb);
+    if nwd > 0 { tb.set_withdrawals_builder(&wb); }
+    if nprop > 0 { tb.set_voting_proposal_builder(&pb); }
+    match tb.get_deposit() {
+        Ok(v) => assert!(u64::from(v) as u128 == dep + prop_sum, "TransactionBuilder::get_deposit differs from the ledger's deposit"),
+        Err(_) => assert!(dep + prop_sum > max, "TransactionBuilder::get_deposit errs although the sum fits"),
+    }
+    match tb.get_implicit_input() {
+        Ok(v) => assert!(u64::from(v.coin()) as u128 == refund + wd_sum && v.multiasset().is_none(), "TransactionBuilder::get_implicit_input differs from withdrawals + refunds"),
+        Err(_) => assert!(refund + wd_sum > max, "TransactionBuilder::get_implicit_input errs although the sum fits"),
+    }
+    match cb.get_certificates_deposit(&p, &k) {
+        Ok(v) => assert!(u64::from(v) as u128 == dep, "get_certificates_deposit differs from the ledger's figure"),
+        Err(_) => assert!(dep > max),
+    }
+    match cb.get_certificates_refund(&p, &k) {
+        Ok(v) => assert!(u64::from(v.coin()) as u128 == refund, "get_certificates_refund differs from the ledger's figure"),
+        Err(_) => assert!(refund > max),
+    }
+}
+
+// ---------------------------------------------------------------- C05 / C06: the release gate, through the public API
+fn cfg_zero_cost() -> TransactionBuilderConfig {
+    TransactionBuilderConfigBuilder::new()
+        .fee_algo(&LinearFee::new(&BigNum::from(0u64), &BigNum::from(0u64)))
+        .pool_deposit(&BigNum::from(0u64)).key_deposit(&BigNum::from(0u64))
+        .max_value_size(5000).max_tx_size(16384)
+        .coins_per_utxo_byte(&BigNum::from(0u64))
+        .build().unwrap()
+}
+fn val(coin: u64, q: u64) -> Value {
+    let mut v = Value::new(&BigNum::from(coin));
+    if q > 0 {
+        let mut ma = MultiAsset::new();
+        let mut a = Assets::new();
+        a.insert(&AssetName::new(vec![1, 2, 3]).unwrap(), &BigNum::from(q));
+        ma.insert(&ScriptHash::from([7u8; 28]), &a);
+        v.set_multiasset(&ma);
+    }
+    v
+}
+fn ent_addr(b: u8) -> Address { EnterpriseAddress::new(0, &ccred(b)).to_address() }
+
+/// draws: in_coin, out_coin, fee, in_q, out_q. One input, one output, fixed fee, zero-cost parameters:
+/// build_tx must succeed only if in == out + fee in lovelace and in the asset.
+pub fn c05_gate<S: Src>(s: &mut S) {
+    let (ic, oc, fee, iq, oq) = (s.u64(), s.u64(), s.u64(), s.u64(), s.u64());
+    let mut b = TransactionBuilder::new(&cfg_zero_cost());
+    let txin = TransactionInput::new(&TransactionHash::from([1u8; 32]), 0);
+    if b.add_regular_input(&ent_addr(1), &txin, &val(ic, iq)).is_err() { s.assume(false); }
+    if b.add_output(&TransactionOutput::new(&ent_addr(2), &val(oc, oq))).is_err() { s.assume(false); }
+    b.set_fee(&BigNum::from(fee));
+    if let Ok(tx) = b.build_tx() {
+        let f = u64::from(tx.body().fee());
+        assert!(f == fee, "a fixed fee must be used exactly");
+        assert!(ic as u128 == oc as u128 + f as u128 && iq == oq, "build_tx released an unbalanced transaction");
+    }
+}
+
+// ---------------------------------------------------------------- C07: min-ADA bound
+fn head_len(v: u64) -> u64 { if v < 24 { 1 } else if v < 0x100 { 2 } else if v < 0x1_0000 { 3 } else if v < 0x1_0000_0000 { 5 } else { 9 } }
+
+/// draws: coin, coins_per_byte, K.  Builds a legacy output whose serialized size is K + head(coin) (an address byte
+/// string of the right length, kept verbatim as a malformed address) and checks the min-ADA bound on real bytes.
+pub fn c07_min_ada<S: Src>(s: &mut S) {
+    let (coin, cpb, k) = (s.u64(), s.u64(), s.u64());
+    s.assume(k >= 3 && k <= 70_000);
+    // K = 1 (array head) + head(L) + L
+    let mut l = None;
+    for cand in k.saturating_sub(6)..k { if 1 + head_len(cand) + cand == k { l = Some(cand); } }
+    let l = match l { Some(l) => l, None => { s.assume(false); 0 } };
+    let addr = vec![0x97u8; l as usize];              // header nibble 0b1001 is no address kind -> malformed, kept verbatim
+    let mut bytes = vec![0x82u8];
+    let mut r = crate::refcbor::Buf::new();
+    r.bytes_head(l); bytes.extend_from_slice(r.as_slice()); bytes.extend_from_slice(&addr);
+    bytes.push(0);                                        // coin 0, replaced below
+    let mut out = TransactionOutput::from_bytes(bytes).expect("crafted output decodes");
+    out = TransactionOutput::new(&out.address(), &Value::new(&BigNum::from(coin)));
+    assert!(out.to_bytes().len() as u64 == k + head_len(coin), "size lemma: len == K + head(coin)");
+    let dc = DataCost::new_coins_per_byte(&BigNum::from(cpb));
+    let widest = (cpb as u128) * (160 + k as u128 + 9);
+    match min_ada_for_output(&out, &dc) {
+        Ok(c) => {
+            let c = u64::from(c);
+            let funded = if c > coin { c } else { coin };
+            let o2 = TransactionOutput::new(&out.address(), &Value::new(&BigNum::from(funded)));
+            let need = (cpb as u128) * (160 + o2.to_bytes().len() as u128);
+            assert!(funded as u128 >= need, "output funded with max(c, coin) is below coins_per_byte*(160+size)");
+            assert!(c as u128 <= widest, "c exceeds the bound at the widest coin encoding");
+        }
+        Err(_) => assert!(widest > u64::MAX as u128, "min_ada_for_output errs although the widest bound fits u64"),
     }
 }
